@@ -192,6 +192,10 @@ class AmfAdvFamily(Family):
             for n in (1, 127, 128, 129, 1000, 20000, big):
                 bump(stats, f"adv_{kind}")
                 yield [f"!amf.adv {kind} {n} 512"]
+        for kind in ("edge_obj", "edge_arr", "edge_ecma"):
+            for n in (0, 1, 62, 63, 64, 125, 126, 127, 128, 129):
+                bump(stats, "adv_edge")
+                yield [f"!amf.adv {kind} {n} 512"]
         for n in (0, 10, 70000):
             yield [f"!amf.adv strlen {n} 512"]
         for n in (1000, 100000, 1000000 if tier == "quick" else 16_000_000):
